@@ -18,6 +18,8 @@ CONSTANTS
   Reorder = TRUE
   RecvAnywhere = FALSE
   PropsOn <- P_C01
+  MaxHostile = 0
+  HostileSet = "none"
   ExportAll = TRUE
   Export = TRUE
 INVARIANT NoFlag
